@@ -16,6 +16,7 @@ EXPLANATION = (
 RULE = "one obligation per wrapped-service call site (ADMIT/NOREACH), per true-return in the Open arm, per writer of state, per Arc field of Clone"
 TRUSTED = ["tokio::sync::Mutex", "std::time::Instant", "rustc MIR construction"]
 ASSUMPTIONS = ["the admission function is the workspace-local bool function whose true edge dominates the wrapped call"]
+CONFIG_CRATES = ["tower_resilience_circuitbreaker"]
 TECHNIQUE = "static analysis of built MIR: edge dominance (must-pass-through), no-reach, who-writes, value-flow of shared state"
 
 
